@@ -92,6 +92,35 @@ func newOPLConfigWatcher(ctx context.Context, c *Config, target string) (*oplCon
 	}
 }
 
+// ShouldReload reports whether the manager has to be rebuilt for the new value
+// of the namespaces configuration. A watched file or directory is only
+// rebuilt when the configured location changed: the watcher itself follows
+// the content, and it holds the last valid version of every file. Rebuilding
+// it on an unrelated configuration reload would drop that state, and with a
+// file that is currently invalid the server would stop serving the namespaces
+// it had loaded from the last valid version.
+func (nw *oplConfigWatcher) ShouldReload(newValue interface{}) bool {
+	cfg, ok := newValue.(map[string]any)
+	if !ok {
+		// the manager type changed
+		return true
+	}
+	location, ok := cfg["location"].(string)
+	if !ok || location != nw.target {
+		return true
+	}
+	targetUrl, err := urlx.Parse(nw.target)
+	if err != nil {
+		return true
+	}
+	switch targetUrl.Scheme {
+	case "file", "":
+		return false
+	}
+	// content that is fetched once (base64, http) is fetched again
+	return true
+}
+
 func (nw *oplConfigWatcher) handleChange(e *watcherx.ChangeEvent) {
 	// the lock is acquired before parsing to ensure that the getters are
 	// waiting for the updated values
